@@ -8,7 +8,8 @@ from props.devs_common import coq_case, nontrivial, op_kinds, run_impl  # noqa: 
 
 ID = "C15"
 COQ_PROPERTY_FILE = "Properties/C15.v"
-COQ_DEPS = ["Generated/Tables.v", "Model/Devs.v", "Model/DevsSpec.v", "Proofs/DevsProofs.v", "Proofs/DevsChunkProofs.v", "Proofs/DevsStepProofs.v", "Proofs/DevsTopProofs.v"]
+COQ_DEPS = ["Generated/Tables.v", "Model/Devs.v", "Model/DevsSpec.v", "Proofs/DevsProofs.v", "Proofs/DevsChunkProofs.v", "Proofs/DevsStepProofs.v",
+            "Proofs/DevsTopProofs.v", "Proofs/DevsVizProofs.v"]
 COQ_IMPORTS = "From Mesa Require Import Generated.Tables Model.Devs."
 COQ_CASE_TYPE = "case"
 COQ_RUN = "run_case"
@@ -98,7 +99,7 @@ def _composition_cases(Tmax, with_next):
 
 def gen_cases(rng, tier):
     cases = []
-    n = 500 if tier == "quick" else 6000
+    n = 500 if tier == "quick" else 12000
     for _ in range(n):
         cases.append(_partition_case(rng, "ABM" if rng.random() < 0.65 else "DEVS"))
     cases += list(_composition_cases(4 if tier == "quick" else 6, True))
